@@ -24,14 +24,52 @@ VIEWS = {
 }
 
 
+def _view_by_interpretation(ctx, fn, name, kind_, src):
+    """True (holds for all flag vectors) | str (counterexample) | None (not interpretable: fall back to the shape)"""
+    import itertools
+
+    from .. import iterpipe as IP
+
+    helpers = {g.name: g for g in A.functions(fn.file) if g.qual.startswith("State::") and g.name != name and g.block is not None and g.name not in ("field_idents",)}
+    n = 3
+    for flags in itertools.product([True, False], repeat=n):
+        infos = [{"enabled": b, "id": f"info#{i}"} for i, b in enumerate(flags)]
+        fields = {k: [f"{k}#{i}" for i in range(n)] for k in ("variants", "variant_states", "fields")}
+        fields["full_meta_infos"] = infos
+        it = IP.Interp(fields, {"field_idents": [f"field_idents()#{i}" for i in range(n)]}, helpers)
+        try:
+            got = it.block(fn.block, {})
+        except IP.Unsupported:
+            return None
+        except Exception:
+            return None
+        if kind_ == "filter":
+            want = [f"{src}#{i}" for i in range(n) if flags[i]]
+        elif kind_ == "index":
+            want = [i for i in range(n) if flags[i]]
+        else:
+            want = [infos[i] for i in range(n) if flags[i]]
+        if got != want:
+            return f"with enabled = {list(flags)} it yields {got} instead of {want}"
+    return True
+
+
 def rule_view_defs(ctx):
     """VIEW-DEF: each `State::enabled_*` view is the corresponding full collection filtered by the per-field `enabled` flag, element order preserved; `enabled_fields_indexes` maps the enabled position to the *original* position, `field_idents()` names tuple fields by their original index, and `MultiFieldData::matcher` puts `_` at every position that is not listed. Derives that select one field (Deref, Index, IntoIterator, AsRef ..) and TryInto's patterns rely on it."""
     for name, (kind_, src) in VIEWS.items():
         fn = A.get_fn(ctx.files, UTILS, f"State::{name}")
         st = fn.block["stmts"]
         txt = A.render_norm(st[-1]["0"]) if len(st) == 1 and A.kind(st[0]) == "Stmt::Expr" else A.fn_text(fn)
-        ctx.instance(f"State::{name}", sample={"view": name, "definition": txt})
         where = ctx.where(fn.file, fn.node)
+        # decide by interpretation first: the view evaluated on symbolic lists for every flag vector of length 3 must be
+        # 'the elements whose flag is set, in order' - whatever the spelling (helpers of the impl are entered)
+        verdict = _view_by_interpretation(ctx, fn, name, kind_, src)
+        ctx.instance(f"State::{name}", sample={"view": name, "definition": txt[:200], "decided by": "interpretation on 8 flag vectors" if verdict is not None else "shape"})
+        if verdict is True:
+            continue
+        if isinstance(verdict, str):
+            ctx.report(f"view:{name}", where, f"`State::{name}` does not yield the enabled elements in order: {verdict}; the view's elements / positional names no longer correspond to the fields the user enabled (e.g. a tuple struct whose selected field is not the first one is accessed as `.0`; patterns built by `matcher` bind the wrong fields)", {})
+            continue
         if kind_ == "filter":
             m = FILTER_VIEW.fullmatch(txt)
             if not m or m.group("src") != src:
@@ -197,9 +235,11 @@ def rule_error_selection(ctx):
     from .. import optalg as O
 
     prm = [A.pat_idents(p_["0"]["pat"]) for p_ in inf.node["sig"]["inputs"] if A.kind(p_) == "FnArg::Typed"]
-    if len(prm) != 2 or any(len(x) != 1 for x in prm):
+    if len(prm) not in (1, 2) or any(len(x) != 1 for x in prm):
         raise A.AnchorLost(f"{ERR}::infer_source_field", f"parameters {prm}")
-    P1, P2 = prm[0][0], prm[1][0]
+    # (the field slice and the parsed fields; or the parsed fields alone, the slice read through `.data.fields`)
+    P2 = prm[-1][0]
+    P1 = prm[0][0] if len(prm) == 2 else f"{P2}.data.fields"
     bad = []
     n_cases = 0
     for n_ in (1, 2, 3):
